@@ -231,7 +231,13 @@ type EnvRec struct {
 }
 
 // every scalar kind (C03)
+// two embedded structs with the same field at the same depth: `Amb` is ambiguous in EnvScalars
+type ZAmb1 struct{ Amb int }
+type ZAmb2 struct{ Amb int }
+
 type EnvScalars struct {
+	ZAmb1
+	ZAmb2
 	I    int
 	I8   int8
 	I16  int16
